@@ -167,7 +167,13 @@ func runC15(t *testing.T, c simrt.Chooser, o Opts) *Out {
 	for _, f := range cr.Wire {
 		bySock[f.Sock] = append(bySock[f.Sock], f.T)
 	}
-	for id, ts := range bySock {
+	var sockIDs []int
+	for id := range bySock {
+		sockIDs = append(sockIDs, id)
+	}
+	sort.Ints(sockIDs)
+	for _, id := range sockIDs {
+		ts := bySock[id]
 		if msg := checkSpacing(ts, n, w, !sc.Stalls); msg != "" {
 			or := "C15.too-fast"
 			if len(msg) > 0 && !sc.Stalls && containsStr(msg, "charged more than once") {
